@@ -171,7 +171,12 @@ impl Prop for C16Prop {
                 text = text.replace(' ', "   ");
             }
             files.push(FileSpec {
-                path: format!("src/{}sib{i}.{}", if t.chance(1, 4) { "sub/" } else { "" }, *t.pick(&["pas", "dpr", "dpk", "Pas"])),
+                path: format!(
+                    "src/{}{}{i}.{}",
+                    if t.chance(1, 4) { "sub/" } else { "" },
+                    *t.pick(&["sib", "sib", "Unit [2] ", "Copy[1]", "what?", "ünï", "a b", "a{b}", "x#", "[", "]x[", "-dash", "a,b"]),
+                    *t.pick(&["pas", "dpr", "dpk", "Pas"])
+                ),
                 text,
                 bom: t.chance(1, 5),
                 kind: "good".into(),
